@@ -427,6 +427,10 @@ def execute(case, ctx, cls=None, extra_kwargs=None, after_create=None):
                     except (EOFError, OSError):
                         end = 'eof'
                         break
+                    except Exception as e:
+                        # a message that arrived intact but cannot be rebuilt on this side (the value is not ours to judge here)
+                        raw.append({'unreadable': type(e).__name__})
+                        continue
                     raw.append([enc(m[0]), enc(m[1]), enc(m[2])] if isinstance(m, tuple) and len(m) == 4 else {'odd': repr(m)[:80]})
                     if isinstance(m, tuple) and len(m) == 4 and m[1] is False:
                         end = 'marker'
